@@ -19,4 +19,23 @@ PROPERTIES = {
     },
 }
 
+
+PROPERTIES["C20"] = {
+    "level": "proof",
+    "level_text": "The routing helper is proved against the property's table for a symbolic PDU of each of the eight kinds "
+                  "with symbolic direction flag, mode, id widths/values and CRC flag (finite kind space case-split, everything "
+                  "else unbounded); both admission checks are proved to refuse every PDU routed to the other side and to say "
+                  "'wrong handler' only for such PDUs; the inactive-EOF helper is proved field by field.",
+    "level_note": "Relative to the assumed PDU object model of spacepackets (stubs/cfdp.py: fields, pdu_type/directive_type, "
+                  "PduHolder casts; ACK acked-directive in {EOF, Finished}). PDUs are symbolic objects, not byte strings: "
+                  "unpacking is outside the verified code.",
+    "explanation": "get_packet_destination, SourceHandler._check_inserted_packet, DestHandler._check_inserted_packet "
+                   "(incl. _handle_first_packet_not_metadata_pdu inlined) and acknowledge_inactive_eof_pdu are executed "
+                   "symbolically for every PDU kind; each raise site must be allowed by a raises-clause, each normal "
+                   "return must satisfy 'not routed to the other side'.",
+    "assumptions": ["spacepackets PDU classes behave as the stub model (direction/ids/mode are plain header fields; "
+                    "FileDataPdu has no directive_type)"],
+    "trusted_base": ["stubs/cfdp.py PDU object model"],
+}
+
 NOT_APPLICABLE = {}
